@@ -271,10 +271,44 @@ theorem C05_cex_pow_secret :
     (match (do let x ← privVal (-2); let e ← privVal 1; powV (.lc x) (.lc e)) (St.init 97 8 8) with
      | .ok (.lc r, _) => r.value == 95 | _ => false) = true := by decide +kernel
 
-/-- `x >> -1` returns a value (here the top bit, 0); Python raises `ValueError` -/
-theorem C05_cex_rshift_negative :
+/-! ## repaired: `x >> n` with a negative public count (was the recorded deviation C05-rshift-negative)
+
+The code returned `from_bits(to_bits(x)[n:])` — Python's slice from the end — where plain Python
+raises `ValueError("negative shift count")`.  Repaired in /repo (`LinComb.__rshift__` tests the count
+before anything is traced, as `1 << n` does for `<<`); the model follows, the former counterexample
+`C05_cex_rshift_negative` is now the regression statement below, and the exclusion `rshiftNegative`
+is gone from the fragment of `C05_program`. -/
+
+/-- **regression, general.**  `x >> n` with a negative public `n` raises `ValueError` in EVERY state
+(any guard, any error mode, any operand value) and nothing is traced -/
+theorem C05_rshift_negative_raises (a : LinComb) {n : Int} (hn : n < 0) (s : St) :
+    rshiftLI a n s = .error .value := rshiftLI_neg hn s
+
+/-- … at the dispatch, for a secret integer and for a fixed-point value on the left
+(`LinCombFxp.__rshift__` delegates to `self.lc >> n`) -/
+theorem C05_val_rshift_negative_raises (a : LinComb) {n : Int} (hn : n < 0) (s : St) :
+    rshiftV (.lc a) (.int n) s = .error .value ∧ rshiftV (.fxp a) (.int n) s = .error .value := by
+  have key : rshiftLV a (.int n) s = .error .value := by
+    simp only [rshiftLV]
+    change M.bind (rshiftLI a n) _ s = _
+    unfold M.bind
+    rw [rshiftLI_neg hn]
+  refine ⟨by simpa only [rshiftV] using key, ?_⟩
+  simp only [rshiftV]
+  change M.bind (rshiftLV a (.int n)) _ s = _
+  unfold M.bind
+  rw [key]
+
+/-- … and conversely a completed `x >> n` had `n ≥ 0` and is Python's shift -/
+theorem C05_rshift_completes_nonneg {s s' : St} {a : LinComb} {k : Int} {o : Option LinComb}
+    (hi : s.ignoreErrors = false) (h : rshiftLI a k s = .ok (o, s')) : 0 ≤ k ∧ valFB o = a.value >>> k.toNat :=
+  ⟨rshiftLI_ok_nonneg h, (rshiftLI_val (rshiftLI_ok_nonneg h) hi h).2.2⟩
+
+/-- **regression, closed** (the former counterexample): `PrivVal(5) >> -1` raises `ValueError` -/
+theorem C05_rshift_negative_regression :
     (match (do let x ← privVal 5; rshiftLV x (.int (-1))) (St.init 97 8 8) with
-     | .ok (.lc r, _) => r.value == 0 | _ => false) = true := by decide +kernel
+     | .error .value => true | _ => false) = true := by
+  first | decide +kernel | fail "x >> -1 no longer raises ValueError in the model"
 
 /-! ## non-vacuity -/
 
@@ -315,9 +349,10 @@ dispatch function, induction over the instruction list) and `Lemmas/PyTotal*.lea
 /-- **C05, program level, agreement.**  For every prime modulus `p`, every bit length and
 resolution, every program in `PyFragment` (no fixed-point values, no guarded regions, no `set ign`,
 no literal containing a secret, and none of the recorded deviations C05-invert, C05-bool-pow,
-C05-bool-bitwise-const, C05-secret-exponent-mod-p [exactly when the power leaves `[0, p)`],
-C05-rshift-negative; selection between lists under a secret condition and secret-index access to
-arrays with non-integer elements are left out): if the traced run completes, then the reference
+C05-bool-bitwise-const, C05-secret-exponent-mod-p [exactly when the power leaves `[0, p)`];
+selection between lists under a secret condition and secret-index access to arrays with non-integer
+elements are left out; `x >> n` with a negative public `n` is INSIDE the fragment since the repair of
+C05-rshift-negative: it raises, as Python does): if the traced run completes, then the reference
 interpreter completes as well (plain Python raises at no instruction) and EVERY register of the
 traced run — secret integers and booleans by their `.value`, containers element-wise, plain ints as
 they are — equals the register of the reference run.  `//`, `%`, `divmod` with a negative divisor
@@ -433,6 +468,17 @@ example : ∃ pregs, pyRun 5 pyDemo = .ok pregs ∧
 example : pyFirstExcl [.lit (.int 5), .mk .priv 0, .un .invert 1] 0 [] [] (St.init 97 8 8) =
     some (2, PyExcl.invertSecretInt) := by
   first | decide +kernel | fail "exclusion table changed"
+
+/-- `PrivVal(5) >> -1` as a program: it is in the fragment (no exclusion any more), the traced run
+raises `ValueError` at the shift, and so does the reference (`raises` at the same instruction): the
+former deviation C05-rshift-negative is an ordinary case of "agrees or raises" -/
+example :
+    PyFragment (St.init 97 8 8) [.lit (.int 5), .mk .priv 0, .lit (.int (-1)), .bin .rshift 1 2] ∧
+    (run (St.init 97 8 8) [.lit (.int 5), .mk .priv 0, .lit (.int (-1)), .bin .rshift 1 2]).err =
+      some (.value, 3) ∧
+    (match pyRun 8 [.lit (.int 5), .mk .priv 0, .lit (.int (-1)), .bin .rshift 1 2] with
+     | .error (.raises, 3) => true | _ => false) = true := by
+  refine ⟨?_, ?_, ?_⟩ <;> first | decide +kernel | fail "negative shift count: closed evaluation failed"
 
 /-- … and a secret exponent is excluded exactly when the power wraps: `(-2) ** PrivVal(1)` is,
 `2 ** PrivVal(3)` is not -/
